@@ -17,7 +17,8 @@ import (
 
 func init() { registerPart("C17", "TestC17", jsonReplay(checkC17)) }
 
-var probeMethods = []string{"GET", "POST", "PUT", "PATCH", "DELETE", "HEAD", "OPTIONS", "FOO", "get"}
+// method tokens are case-sensitive: "options" and "Options" are methods other than OPTIONS
+var probeMethods = []string{"GET", "POST", "PUT", "PATCH", "DELETE", "HEAD", "OPTIONS", "FOO", "get", "options", "Options"}
 
 func genC17(t *rapid.T) RoutingCase {
 	c := RoutingCase{}
